@@ -290,3 +290,256 @@ Proof.
 Qed.
 
 End WeightGrid.
+
+(* ---------------- Catchment.intersect as a whole ---------------- *)
+Section IntersectPy.
+Context {T : Type} (N : NumOps T).
+Variables (nr_a nc_a : Z) (xll_a yll_a csz_a : T) (filled : bool) (cells cells_filled : list Z).
+Variables (nrows ncols : Z) (xll yll csz : T).
+
+Let xys := area_xy N nr_a nc_a xll_a yll_a csz_a filled cells cells_filled.
+Let acc := c_intersect N nrows ncols xll yll csz csz_a xys.
+
+Lemma intersect_py_some r :
+  intersect_py N nr_a nc_a xll_a yll_a csz_a filled cells cells_filled nrows ncols xll yll csz = Some r ->
+  acc <> [] /\ r = ires_of_acc N nrows ncols xll yll csz acc.
+Proof.
+  unfold intersect_py. fold xys. fold acc. destruct acc eqn:E; [discriminate|].
+  intros H. injection H as <-. split; [discriminate|reflexivity].
+Qed.
+
+(* the error path: ValueError exactly when no centre is located in the grid *)
+Theorem intersect_py_none :
+  intersect_py N nr_a nc_a xll_a yll_a csz_a filled cells cells_filled nrows ncols xll yll csz = None <->
+  (forall xy, In xy xys -> coord2cell N nrows ncols xll yll csz xy < 0).
+Proof.
+  unfold intersect_py. fold xys. fold acc. split.
+  - intros H xy I. destruct acc eqn:E; [|discriminate].
+    destruct (Z_lt_le_dec (coord2cell N nrows ncols xll yll csz xy) 0) as [|Hge]; [assumption|].
+    exfalso.
+    assert (K : In (coord2cell N nrows ncols xll yll csz xy) (map fst acc)).
+    { unfold acc, c_intersect. apply intersect_keys. split; [assumption|]. exists xy. auto. }
+    rewrite E in K. contradiction.
+  - intros H. destruct acc as [|[k w] l] eqn:E; [reflexivity|]. exfalso.
+    assert (K : In k (map fst acc)) by (rewrite E; left; reflexivity).
+    unfold acc, c_intersect in K. apply intersect_keys in K. destruct K as (Hk & xy & I & Exy).
+    specialize (H xy I). lia.
+Qed.
+
+Lemma acc_valid k : In k (map fst acc) -> 0 <= k < nrows * ncols.
+Proof.
+  intros K. unfold acc, c_intersect in K. apply intersect_keys in K. destruct K as (Hk & xy & _ & E).
+  destruct (coord2cell_range N nrows ncols xll yll csz xy); lia.
+Qed.
+
+(* ★ weight grid: parent rows/columns and placement, for every arithmetic *)
+Theorem intersect_py_weight_grid r :
+  0 < ncols ->
+  intersect_py N nr_a nc_a xll_a yll_a csz_a filled cells cells_filled nrows ncols xll yll csz = Some r ->
+  let rowof k := fst (cell2rowcol nrows ncols k) in
+  let colof k := snd (cell2rowcol nrows ncols k) in
+  NoDup (ir_idx r) /\ List.length (ir_idx r) = List.length (ir_w r) /\
+  (forall k, In k (ir_idx r) -> 0 <= k < nrows * ncols) /\
+  ir_nrows r = ir_row_end r - ir_row_start r + 1 /\ ir_ncols r = ir_col_end r - ir_col_start r + 1 /\
+  Z.of_nat (List.length (ir_data r)) = ir_nrows r * ir_ncols r /\
+  (exists k, In k (ir_idx r) /\ rowof k = ir_row_start r) /\
+  (exists k, In k (ir_idx r) /\ rowof k = ir_row_end r) /\
+  (exists k, In k (ir_idx r) /\ colof k = ir_col_start r) /\
+  (exists k, In k (ir_idx r) /\ colof k = ir_col_end r) /\
+  (forall k w, In (k, w) (combine (ir_idx r) (ir_w r)) ->
+     0 <= rowof k - ir_row_start r < ir_nrows r /\ 0 <= colof k - ir_col_start r < ir_ncols r /\
+     zn (ir_data r) ((rowof k - ir_row_start r) * ir_ncols r + (colof k - ir_col_start r)) (n0 N) = w) /\
+  (forall i j, 0 <= i < ir_nrows r -> 0 <= j < ir_ncols r ->
+     (forall k, In k (ir_idx r) -> (rowof k, colof k) <> (ir_row_start r + i, ir_col_start r + j)) ->
+     zn (ir_data r) (i * ir_ncols r + j) (n0 N) = n0 N).
+Proof.
+  intros Hnc H. apply intersect_py_some in H. destruct H as [Hne ->].
+  assert (ND : NoDup (map fst acc)) by apply intersect_nodup.
+  pose proof (parent_box N nrows ncols xll yll csz acc Hne ND acc_valid) as (_ & B1 & B2 & B3 & B4).
+  pose proof (weight_grid_shape N nrows ncols xll yll csz acc Hne ND acc_valid) as (S1 & S2 & _ & _ & S5).
+  pose proof (weight_grid_placement N nrows ncols xll yll csz acc Hnc Hne ND acc_valid) as (P1 & P2).
+  cbv zeta.
+  split; [exact ND|]. split; [change (List.length (map fst acc) = List.length (map snd acc)); rewrite !map_length; reflexivity|].
+  split; [intros k I; apply acc_valid, I|].
+  split; [exact S1|]. split; [exact S2|]. split; [exact S5|].
+  split; [exact B1|]. split; [exact B2|]. split; [exact B3|]. split; [exact B4|].
+  split; [|exact P2].
+  intros k w I. destruct (P1 k w I) as (A1 & A2 & A3). split; [exact A1|]. split; [exact A2|exact A3].
+Qed.
+
+End IntersectPy.
+
+(* ---------------- Catchment.intersect on the reals ---------------- *)
+Open Scope R_scope.
+
+Section IntersectPyR.
+Variables (nr_a nc_a : Z) (xll_a yll_a csz_a : R) (filled : bool) (cells cells_filled : list Z).
+Variables (nrows ncols : Z) (xll yll csz : R).
+Hypothesis Hcsz : 0 < csz.
+
+Let cs := if filled then cells_filled else cells.
+Let centre (c : Z) : R * R := cell2coord RR nr_a nc_a xll_a yll_a csz_a c.
+
+(* ★ each weight = (csz_area/csz)^2 x number of area cells whose centre lies in
+   the footprint of the grid cell; ★ sum(weights) x csz^2 = number of area
+   cells whose centre lies inside the grid x csz_area^2 *)
+Theorem intersect_py_weights r :
+  intersect_py RR nr_a nc_a xll_a yll_a csz_a filled cells cells_filled nrows ncols xll yll csz = Some r ->
+  (forall k w, In (k, w) (combine (ir_idx r) (ir_w r)) ->
+     exists row col, (0 <= col < ncols)%Z /\ (0 <= row < nrows)%Z /\ k = (row * ncols + col)%Z /\
+       (0 < countb (fun c => in_footprint_b nrows xll yll csz row col (centre c)) cs)%nat /\
+       w = (csz_a / csz) * (csz_a / csz) *
+           INR (countb (fun c => in_footprint_b nrows xll yll csz row col (centre c)) cs)) /\
+  (forall row col, (0 <= col < ncols)%Z -> (0 <= row < nrows)%Z ->
+     (exists c, In c cs /\ in_footprint nrows xll yll csz row col (centre c)) ->
+     In (row * ncols + col)%Z (ir_idx r)) /\
+  Rsum (ir_w r) * (csz * csz) =
+    INR (countb (fun c => in_extent_b nrows ncols xll yll csz (centre c)) cs) * (csz_a * csz_a).
+Proof.
+  intros H. apply intersect_py_some in H. destruct H as [Hne ->].
+  unfold area_xy in *. fold cs in Hne |- *.
+  change (cell2coord RR nr_a nc_a xll_a yll_a csz_a) with centre in Hne |- *.
+  set (acc := c_intersect RR nrows ncols xll yll csz csz_a (map centre cs)) in *.
+  change (ir_idx (ires_of_acc RR nrows ncols xll yll csz acc)) with (map fst acc).
+  change (ir_w (ires_of_acc RR nrows ncols xll yll csz acc)) with (map snd acc).
+  split; [|split].
+  - intros k w I. rewrite combine_fst_snd in I.
+    assert (K : In k (map fst acc)) by (change k with (fst (k, w)); apply in_map, I).
+    unfold acc in K. apply c_intersect_cells in K; [|assumption].
+    destruct K as (row & col & Hc & Hr & -> & xy & Ixy & F).
+    exists row, col. repeat split; try lia.
+    + rewrite <- countb_map. apply countb_pos. exists xy. split; [assumption|].
+      apply in_footprint_b_true, F.
+    + rewrite <- countb_map. apply (c_intersect_weight nrows ncols xll yll csz csz_a); assumption.
+  - intros row col Hc Hr (c & Ic & F). unfold acc. apply c_intersect_cells; [assumption|].
+    exists row, col. repeat split; try lia. exists (centre c). split; [apply in_map, Ic|assumption].
+  - rewrite <- countb_map. apply c_intersect_area_conserved. assumption.
+Qed.
+
+(* the error path on the reals: no centre inside the extent of the grid *)
+Theorem intersect_py_none_RR :
+  intersect_py RR nr_a nc_a xll_a yll_a csz_a filled cells cells_filled nrows ncols xll yll csz = None <->
+  (forall c, In c cs -> ~ in_extent nrows ncols xll yll csz (centre c)).
+Proof.
+  rewrite intersect_py_none. unfold area_xy. fold cs. split.
+  - intros H c I E. apply coord2cell_inside_iff in E; [|assumption].
+    specialize (H (centre c) (in_map _ _ _ I)). lia.
+  - intros H xy I. apply in_map_iff in I. destruct I as (c & <- & I).
+    destruct (Z_lt_le_dec (coord2cell RR nrows ncols xll yll csz (cell2coord RR nr_a nc_a xll_a yll_a csz_a c)) 0)
+      as [|Hge]; [assumption|].
+    apply coord2cell_inside_iff in Hge; [|assumption]. exfalso. apply (H c I Hge).
+Qed.
+
+End IntersectPyR.
+
+(* ---------------- lower-left corner of the weight grid (reals) ---------------- *)
+Lemma fmin_fold_RR l : forall m,
+  let f := fold_left (fun m x => if nltb RR x m then x else m) l m in
+  (f = m \/ In f l) /\ f <= m /\ forall x, In x l -> f <= x.
+Proof.
+  induction l as [|a l IH]; intros m; cbv zeta; cbn [fold_left];
+    [split; [left; reflexivity|split; [lra|intros x []]]|].
+  change (nltb RR a m) with (Rltb a m). destruct (Rltb a m) eqn:E.
+  - apply Rltb_true in E. destruct (IH a) as (A & B & C). split; [|split].
+    + destruct A as [->|I]; [right; left; reflexivity|right; right; assumption].
+    + lra.
+    + intros x [<-|I]; auto.
+  - apply Rltb_false in E. destruct (IH m) as (A & B & C). split; [|split].
+    + destruct A as [->|I]; [left; reflexivity|right; right; assumption].
+    + lra.
+    + intros x [<-|I]; [lra|auto].
+Qed.
+
+Lemma fmin_list_RR l : l <> [] -> In (fmin_list RR l) l /\ forall x, In x l -> fmin_list RR l <= x.
+Proof.
+  destruct l as [|a l]; [congruence|]. intros _. unfold fmin_list. cbn [hd tl].
+  destruct (fmin_fold_RR l a) as (A & B & C). cbv zeta in *. split.
+  - destruct A as [->|I]; [left; reflexivity|right; assumption].
+  - intros x [<-|I]; auto.
+Qed.
+
+Section Corner.
+Variables (nrows ncols : Z) (xll yll csz : R).
+Variable acc : list (Z * R).
+Hypothesis Hcsz : 0 < csz.
+Hypothesis Hncols : (0 < ncols)%Z.
+Hypothesis Hnonempty : acc <> [].
+Hypothesis Hnodup : NoDup (map fst acc).
+Hypothesis Hvalid : forall k, In k (map fst acc) -> (0 <= k < nrows * ncols)%Z.
+
+Let r := ires_of_acc RR nrows ncols xll yll csz acc.
+
+Lemma coord_of k : In k (map fst acc) ->
+  cell2coord RR nrows ncols xll yll csz k =
+  (xll + csz * (IZR (snd (cell2rowcol nrows ncols k)) + / 2),
+   yll + csz * (IZR (nrows - 1 - fst (cell2rowcol nrows ncols k)) + / 2)).
+Proof.
+  intros I. pose proof (cell2rowcol_valid nrows ncols k Hncols (Hvalid k I)) as H.
+  destruct (cell2rowcol nrows ncols k) as [row col]. destruct H as (-> & Hc & Hr).
+  cbn [fst snd]. apply cell2coord_centre; assumption.
+Qed.
+
+(* the weight grid is the window [row_start..row_end] x [col_start..col_end] of
+   the parent grid: same cell size, lower-left corner on the parent's lattice *)
+Theorem weight_grid_corner :
+  ir_xll r = xll + csz * IZR (ir_col_start r) /\
+  ir_yll r = yll + csz * IZR (nrows - 1 - ir_row_end r).
+Proof.
+  pose proof (parent_box RR nrows ncols xll yll csz acc Hnonempty Hnodup Hvalid) as (Hb & _ & (k2 & I2 & E2) & (k3 & I3 & E3) & _).
+  fold r in Hb, I2, E2, I3, E3.
+  assert (Hhalf : ndiv RR csz (nofZ RR INTERSECT_HALF_DIV) = csz / 2) by reflexivity.
+  assert (Hne : map fst acc <> []) by (destruct acc; [congruence|discriminate]).
+  split.
+  - unfold r at 1, ires_of_acc. cbn [ir_xll]. rewrite Hhalf. cbn [nsub RR].
+    set (xs := map fst (map (cell2coord RR nrows ncols xll yll csz) (map fst acc))).
+    assert (Hx : xs <> []) by (unfold xs; destruct acc; [congruence|discriminate]).
+    destruct (fmin_list_RR xs Hx) as [A B].
+    apply in_map_fst_map in A. destruct A as (k0 & I0 & E0).
+    rewrite (coord_of k0 I0) in E0. cbn [fst] in E0.
+    assert (L : fmin_list RR xs <= xll + csz * (IZR (snd (cell2rowcol nrows ncols k3)) + / 2)).
+    { apply B. unfold xs. rewrite map_map. apply in_map_iff. exists k3. split; [|exact I3].
+      rewrite (coord_of k3 I3). reflexivity. }
+    destruct (Hb k0 I0) as [_ [Hc0 _]]. rewrite E3 in L. rewrite <- E0 in L |- *.
+    assert (IZR (snd (cell2rowcol nrows ncols k0)) <= IZR (ir_col_start r)) by nra.
+    apply le_IZR in H. assert (E : snd (cell2rowcol nrows ncols k0) = ir_col_start r) by lia.
+    rewrite E. field.
+  - unfold r at 1, ires_of_acc. cbn [ir_yll]. rewrite Hhalf. cbn [nsub RR].
+    set (ys := map snd (map (cell2coord RR nrows ncols xll yll csz) (map fst acc))).
+    assert (Hy : ys <> []) by (unfold ys; destruct acc; [congruence|discriminate]).
+    destruct (fmin_list_RR ys Hy) as [A B].
+    apply in_map_snd_map in A. destruct A as (k0 & I0 & E0).
+    rewrite (coord_of k0 I0) in E0. cbn [snd] in E0.
+    assert (L : fmin_list RR ys <= yll + csz * (IZR (nrows - 1 - fst (cell2rowcol nrows ncols k2)) + / 2)).
+    { apply B. unfold ys. rewrite map_map. apply in_map_iff. exists k2. split; [|exact I2].
+      rewrite (coord_of k2 I2). reflexivity. }
+    destruct (Hb k0 I0) as [[_ Hr0] _]. rewrite E2 in L. rewrite <- E0 in L |- *.
+    assert (IZR (nrows - 1 - fst (cell2rowcol nrows ncols k0)) <= IZR (nrows - 1 - ir_row_end r)) by nra.
+    apply le_IZR in H. assert (E : fst (cell2rowcol nrows ncols k0) = ir_row_end r) by lia.
+    rewrite E. field.
+Qed.
+
+(* hence cell (i, j) of the weight grid has the centre of parent cell
+   (row_start + i, col_start + j) *)
+Theorem weight_grid_centres i j :
+  (0 <= i < ir_nrows r)%Z -> (0 <= j < ir_ncols r)%Z ->
+  cell2coord RR (ir_nrows r) (ir_ncols r) (ir_xll r) (ir_yll r) csz (i * ir_ncols r + j) =
+  cell2coord RR nrows ncols xll yll csz ((ir_row_start r + i) * ncols + (ir_col_start r + j)).
+Proof.
+  intros Hi Hj.
+  pose proof (parent_box RR nrows ncols xll yll csz acc Hnonempty Hnodup Hvalid) as (Hb & (k1 & I1 & E1) & (k2 & I2 & E2) & (k3 & I3 & E3) & (k4 & I4 & E4)).
+  pose proof (weight_grid_shape RR nrows ncols xll yll csz acc Hnonempty Hnodup Hvalid) as (S1 & S2 & _).
+  fold r in Hb, I1, E1, I2, E2, I3, E3, I4, E4, S1, S2.
+  assert (V : forall k, In k (ir_idx r) ->
+            (0 <= snd (cell2rowcol nrows ncols k) < ncols /\ 0 <= fst (cell2rowcol nrows ncols k) < nrows)%Z).
+  { intros k I. pose proof (cell2rowcol_valid nrows ncols k Hncols (Hvalid k I)) as H.
+    destruct (cell2rowcol nrows ncols k). cbn [fst snd]. tauto. }
+  pose proof (V k1 I1). pose proof (V k2 I2). pose proof (V k3 I3). pose proof (V k4 I4).
+  rewrite !cell2coord_centre by lia.
+  destruct weight_grid_corner as [-> ->]. fold r. rewrite S1.
+  f_equal.
+  - rewrite plus_IZR. ring.
+  - replace (ir_row_end r - ir_row_start r + 1 - 1 - i)%Z with ((nrows - 1 - (ir_row_start r + i)) - (nrows - 1 - ir_row_end r))%Z by lia.
+    rewrite (minus_IZR (nrows - 1 - (ir_row_start r + i))). ring.
+Qed.
+
+End Corner.
